@@ -194,7 +194,11 @@ func vOpenN(maxP int) {
 		got = got && string(s.data) == string(payload) && s.writes == 1
 	}
 	vrt.Assert("every-destination-receives-every-write", got)
-	vrt.Assert("sync-nil", ws.Sync() == nil)
+	// Syncing the process's real stdout/stderr succeeds or not depending on what they are attached to (a
+	// pipe reports EINVAL): its result is the environment's, not zap's, so it is asserted only without them
+	if serr := ws.Sync(); e.std == 0 {
+		vrt.Assert("sync-nil", serr == nil)
+	}
 	if vrt.Symbolic() {
 		synced := true
 		for _, f := range e.opened {
